@@ -111,6 +111,9 @@ s390_get_page(struct page_io *pio)
 	status = fcache_get_chunk(ctx->shared->fcache, &pio->chunk,
 				  get_page_size(ctx), 0, pos);
 	mutex_unlock(&ctx->shared->cache_lock);
+	if (status != KDUMP_OK)
+		return set_error(ctx, status, "Cannot read page data at %llu",
+				 (unsigned long long) pos);
 	return status;
 }
 
